@@ -136,6 +136,16 @@ CHECKS['C14'] = dict(
          'table-driven from polynomial 0x1864CFB (bit-serial equivalence tested, not proved). Trusted: Lean kernel + 3 axioms; harness; '
          'operator new 4-byte aligned; uint32 counters mod 2^32.')
 
+CHECKS['C11'] = dict(
+    text='Lean 4 simulation proof (C11_cursor_refines): for every log and every sequence of read/filter(types, time range, index '
+         'slice, remove-untimed)/clear/rewind/seek/seek-to-eof operations, every answer of the reader model (next_index_elem '
+         'bookkeeping, filtered index, remembered last-consumed offset, argmax repositioning) equals the answer of the abstract '
+         'cursor: first selected message after the last one returned or sought; iteration ends exactly when none remains. Tied to '
+         'mixed_log_reader.py by random and bounded-exhaustive operation scripts; abstract cursor run as oracle.',
+    ref='4 C11', technique='Lean 4 simulation/invariant proof over operation histories + correspondence on operation scripts',
+    note='Trusted: Lean kernel + 3 standard axioms; harness. Source filter / max_bytes are not part of cursor scripts (C10). '
+         'History independence (no hidden state or timing) is tied to the code by the correspondence, the model being a pure function.')
+
 NOT_APPLICABLE = []
 
 
